@@ -226,3 +226,93 @@ Lemma to_entry_S : forall f c busy n,
 Proof. intros. destruct n; reflexivity. Qed.
 
 End ToEntryEq.
+
+(* ------------------------------------------------------------------ the height of a tree *)
+(* [height] (Model/Schema.v) is a nested structural fixpoint; this is its unfolding equation over the list of the
+   heights of the immediate subtrees (children, rpc input, rpc output) *)
+Definition height_list (e : entry) : list nat :=
+  match e_dir e with Some d => map (fun kv => height (snd kv)) d | None => [] end ++
+  match e_rpc e with
+  | Some (i, o) => (match i with Some x => [height x] | None => [] end) ++
+                   (match o with Some x => [height x] | None => [] end)
+  | None => []
+  end.
+
+Lemma height_eq : forall e, height e = S (fold_right Nat.max O (height_list e)).
+Proof.
+  intros [n k c m df u t ky la ns d r]. unfold height_list. cbn [height e_dir e_rpc]. f_equal.
+  assert (A : forall (l : list (str * entry)) (l' : list nat),
+             fold_right Nat.max 0 (map (fun kv => height (snd kv)) l ++ l') =
+             Nat.max ((fix hl (l : list (str * entry)) : nat :=
+                         match l with [] => O | (_, c) :: r => Nat.max (height c) (hl r) end) l)
+                     (fold_right Nat.max 0 l')).
+  { induction l as [|[a b] l IH]; intros l'; cbn [map app fold_right snd]; [reflexivity|]. rewrite IH. lia. }
+  destruct d as [d|].
+  - rewrite A. f_equal. destruct r as [[[i|] [o|]]|]; cbn [app fold_right]; lia.
+  - cbn [app]. destruct r as [[[i|] [o|]]|]; cbn [app fold_right]; lia.
+Qed.
+
+Lemma fold_max_upper : forall (l : list nat) b, (forall v, In v l -> v <= b) -> fold_right Nat.max 0 l <= b.
+Proof.
+  induction l as [|a l IH]; intros b H; cbn [fold_right]; [lia|].
+  pose proof (H a (or_introl eq_refl)). pose proof (IH b (fun v Hv => H v (or_intror Hv))). lia.
+Qed.
+
+Lemma fold_max_member : forall (l : list nat) v, In v l -> v <= fold_right Nat.max 0 l.
+Proof.
+  induction l as [|a l IH]; intros v Hv; [destruct Hv|]. cbn [fold_right].
+  destruct Hv as [->|Hv]; [lia|]. specialize (IH v Hv). lia.
+Qed.
+
+Lemma height_pos : forall e, 1 <= height e.
+Proof. intros e. rewrite height_eq. lia. Qed.
+
+(* every immediate subtree is lower *)
+Lemma height_child : forall e d kv, e_dir e = Some d -> In kv d -> height (snd kv) < height e.
+Proof.
+  intros e d kv Ed Hin. rewrite (height_eq e). apply le_n_S. apply fold_max_member.
+  unfold height_list. rewrite Ed. apply in_or_app. left. apply in_map_iff. exists kv. split; [reflexivity | exact Hin].
+Qed.
+
+Lemma height_input : forall e x o, e_rpc e = Some (Some x, o) -> height x < height e.
+Proof.
+  intros e x o Er. rewrite (height_eq e). apply le_n_S. apply fold_max_member.
+  unfold height_list. rewrite Er. apply in_or_app. right. apply in_or_app. left. left. reflexivity.
+Qed.
+
+Lemma height_output : forall e i x, e_rpc e = Some (i, Some x) -> height x < height e.
+Proof.
+  intros e i x Er. rewrite (height_eq e). apply le_n_S. apply fold_max_member.
+  unfold height_list. rewrite Er. apply in_or_app. right. apply in_or_app. right. left. reflexivity.
+Qed.
+
+(* the fuel-bounded measurement that [height] replaced in Process (cut off at [fuel]): wherever it was not cut
+   off it is the height, so Process computes what it computed before on all those schemas *)
+Fixpoint depth_cut (fuel : nat) (e : entry) : nat :=
+  match fuel with
+  | O => O
+  | S f =>
+    S (fold_right Nat.max O
+         (match e_dir e with Some d => map (fun kv => depth_cut f (snd kv)) d | None => [] end ++
+          match e_rpc e with
+          | Some (i, o) => (match i with Some x => [depth_cut f x] | None => [] end) ++
+                           (match o with Some x => [depth_cut f x] | None => [] end)
+          | None => []
+          end))
+  end.
+
+Lemma fold_max_map_min : forall f (l : list nat),
+  fold_right Nat.max 0 (map (Nat.min f) l) = Nat.min f (fold_right Nat.max 0 l).
+Proof. intros f. induction l as [|a l IH]; cbn [map fold_right]; [lia|]. rewrite IH. lia. Qed.
+
+Lemma depth_cut_height : forall f e, depth_cut f e = Nat.min f (height e).
+Proof.
+  induction f as [|f IH]; intros e; [reflexivity|].
+  rewrite height_eq. cbn [depth_cut]. cbn [Nat.min]. f_equal.
+  rewrite <- fold_max_map_min. f_equal. unfold height_list. rewrite map_app. f_equal.
+  - destruct (e_dir e) as [d|]; [|reflexivity]. rewrite map_map. apply map_ext. intros kv. apply IH.
+  - destruct (e_rpc e) as [[[i|] [o|]]|]; cbn [map app]; rewrite ?IH; reflexivity.
+Qed.
+
+Corollary depth_cut_exact : forall f e, depth_cut f e < f -> depth_cut f e = height e.
+Proof. intros f e H. rewrite depth_cut_height in *. lia. Qed.
